@@ -189,6 +189,9 @@ func (p *Program) SetSubst(pairs map[string]string) []string {
 		}
 		sp := p.SSAPkgs[repoModule+"/"+q[:i]]
 		if sp == nil {
+			sp = p.Prog.ImportedPackage(repoModule + "/" + q[:i])
+		}
+		if sp == nil {
 			return nil
 		}
 		return sp.Func(q[i+1:])
